@@ -128,6 +128,30 @@ def mutants_of(path: Path) -> list[dict]:
         elif isinstance(node, ast.Break):
             s0, e0 = span(node)
             add("break-continue", node, s0, e0, "continue")
+    if os.environ.get("MUT_OPS") == "order":
+        out = []  # second operator set only
+        for node in ast.walk(tree):
+            body_lists = []
+            for attr in ("body", "orelse", "finalbody"):
+                b = getattr(node, attr, None)
+                if isinstance(b, list) and b and isinstance(b[0], ast.stmt):
+                    body_lists.append(b)
+            for b in body_lists:
+                for x, y in zip(b, b[1:]):
+                    simple = (ast.Assign, ast.AugAssign, ast.Expr, ast.AnnAssign)
+                    if isinstance(x, simple) and isinstance(y, simple) and id(x) not in in_docstring_or_annotation and not (isinstance(x, ast.Expr) and isinstance(x.value, ast.Constant)):
+                        (s0, e0), (s1, e1) = span(x), span(y)
+                        add("swap-stmts", x, s0, e1, src[s1:e1] + src[e0:s1] + src[s0:e0])
+            if isinstance(node, ast.FunctionDef):
+                params = [a.arg for a in node.args.posonlyargs + node.args.args + node.args.kwonlyargs if a.arg not in ("self", "cls")]
+                locals_ = list(dict.fromkeys(params + [t.id for n2 in ast.walk(node) if isinstance(n2, ast.Assign) for t in n2.targets if isinstance(t, ast.Name)]))
+                for call in ast.walk(node):
+                    if isinstance(call, ast.Call):
+                        for a in call.args:
+                            if isinstance(a, ast.Name) and a.id in locals_ and len(locals_) > 1:
+                                alt = locals_[(locals_.index(a.id) + 1) % len(locals_)]
+                                s0, e0 = span(a)
+                                add("name-swap", a, s0, e0, alt)
     return out
 
 
